@@ -261,6 +261,28 @@ CHECKS = {
         technique=TECH + "seeded class hierarchies and access histories over several instances "
                          "(resolution order as schedule) against a rule model",
         design="4 (C13)"),
+    "C20": dict(
+        level="exploration",
+        text=("Seeded simulated histories on 2-4 objects with Int, Str and List(Int) traits: "
+              "sync_trait links (mutual and one-way, aliases, several partners, chains) added "
+              "and removed at generated points, assignments on any side, every list mutator "
+              "incl. extended slices, sort, reverse, *=, whole-list assignment, gc, and drop+gc "
+              "of a partner between ops or from inside a change handler while a propagation is "
+              "in flight. A model propagates each real change along the directed link graph "
+              "(only through nodes it really changes). After every op all objects must hold "
+              "what the link graph says (mutual sides equal; one-way target equal to the source "
+              "after source assignments, source untouched by target ops), no handler may be "
+              "called twice for one change, no exception may reach the exception handler or the "
+              "caller (also after removal or partner death), and RecursionError or exceeding the "
+              "step cap is a termination violation. Sampling, not proof."),
+        note=("Both ends of a link have the same trait type; in-place mutation through one-way "
+              "links onto an independently changed target is not compared; link graphs with "
+              "redundant paths between List traits are excluded by a guard (known finding K2, "
+              "stored witness)."),
+        technique=TECH + "seeded two-sided assignment/mutation/link histories with partner "
+                         "gc/drop events (also injected inside handlers) against a link-graph "
+                         "propagation model",
+        design="4 (C20)"),
 }
 
 NOT_APPLICABLE = {
